@@ -397,3 +397,104 @@ def _continuous_case(nq, k, what):
     if snap(base) != s0:
         f.append(("base_changed", "process tomography changed the base circuit (%s)" % desc))
     return {"findings": f, "case": (nq, k), "desc": desc, "V": [[repr(complex(x)) for x in row] for row in V]}
+
+
+# ---------------------------------------------------------------- continuous states (evaluator side of C15), n = 1..3 qubits
+def _embed(G, qs, nq):
+    """the nq-qubit matrix of gate G acting on qubits qs (qubit 0 = most significant)"""
+    d = 2 ** nq
+    k = len(qs)
+    M = np.zeros((d, d), dtype=complex)
+    for col in range(d):
+        bits = [(col >> (nq - 1 - q)) & 1 for q in range(nq)]
+        sub_in = 0
+        for q in qs:
+            sub_in = (sub_in << 1) | bits[q]
+        for sub_out in range(2 ** k):
+            amp = G[sub_out, sub_in]
+            if amp == 0:
+                continue
+            ob = list(bits)
+            for j, q in enumerate(qs):
+                ob[q] = (sub_out >> (k - 1 - j)) & 1
+            row = 0
+            for b in ob:
+                row = (row << 1) | b
+            M[row, col] += amp
+    return M
+
+
+def continuous_state_case(args):
+    nq, k = args
+    from ..common import library_raised
+    try:
+        return _continuous_state_case(nq, k)
+    except Exception as e:  # noqa: BLE001
+        if not library_raised(e):
+            raise
+        return {"findings": [("raised", "%s: %s" % (type(e).__name__, e))], "case": (nq, k)}
+
+
+def _continuous_state_case(nq, k):
+    import lightworks as lw
+    from lightworks import qubit, tomography as tm
+    rng = np.random.default_rng(200003 * nq + k)
+    f = []
+    CZ = np.diag([1, 1, 1, -1]).astype(complex)
+    CN1 = np.array([[1, 0, 0, 0], [0, 1, 0, 0], [0, 0, 0, 1], [0, 0, 1, 0]], dtype=complex)      # target = second qubit of the pair
+    base = lw.Circuit(2 * nq)
+    V = np.eye(2 ** nq, dtype=complex)
+    steps = []
+
+    def local_layer():
+        nonlocal V
+        for q in range(nq):
+            U = _haar(rng, 2)
+            base.add(lw.Unitary(U.copy()), 2 * q)
+            V = _embed(U, [q], nq) @ V
+    local_layer()
+    if nq >= 2:
+        pairs = [(q, q + 1) for q in range(nq - 1)]
+        rng.shuffle(pairs)
+        if nq == 3 and k % 2 == 0:           # a heralded gate on one pair first, the post-selected one on the other pair last
+            a, b = pairs[0]
+            base.add(qubit.CNOT_Heralded(1), 2 * a)
+            V = _embed(CN1, [a, b], nq) @ V
+            steps.append("CNOT_Heralded(%d,%d)" % (a, b))
+            local_layer()
+            pairs = pairs[1:]
+        a, b = pairs[0]
+        kind = ["CZ", "CNOT", "CZ_Heralded"][k % 3]
+        if kind == "CZ":
+            base.add(qubit.CZ(), 2 * a)
+            V = _embed(CZ, [a, b], nq) @ V
+        elif kind == "CNOT":
+            base.add(qubit.CNOT(1), 2 * a)
+            V = _embed(CN1, [a, b], nq) @ V
+        else:
+            base.add(qubit.CZ_Heralded(), 2 * a)
+            V = _embed(CZ, [a, b], nq) @ V
+        steps.append("%s(%d,%d)" % (kind, a, b))
+        local_layer()
+    desc = "%d qubits, Haar-random local unitaries around %s, #%d" % (nq, steps or "nothing", k)
+    psi = V[:, 0]
+    rx = np.outer(psi, psi.conj())
+    s0 = snap(base)
+    for src in ("permanent", "analyzer"):
+        ex = Experiment(k, src)
+        t = tm.StateTomography(nq, base, ex.state)
+        rho = t.process()
+        if src == "permanent":
+            msg = check_requested(base, ex.calls[0][1], nq)
+            if msg:
+                f.append(("protocol", msg + " (%s)" % desc))
+        if np.abs(rho - rx).max() > 1e-8:
+            f.append(("rho", "%s frequencies: reconstructed density matrix differs from |psi><psi| by %.3g (%s)" % (src, np.abs(rho - rx).max(), desc)))
+        if np.abs(rho - rho.conj().T).max() > 1e-9 or abs(np.trace(rho) - 1) > 1e-9:
+            f.append(("rho", "density matrix not Hermitian / unit trace (%s)" % desc))
+        fid = t.fidelity(rx)
+        if not np.isfinite(fid) or abs(fid - 1) > 1e-6:
+            f.append(("fidelity", "%s frequencies: state fidelity against the prepared state is %r (%s)" % (src, fid, desc)))
+    if snap(base) != s0:
+        f.append(("base_changed", "state tomography changed the base circuit (%s)" % desc))
+    return {"findings": f, "case": (nq, k), "desc": desc}
